@@ -199,6 +199,17 @@ def run(c, chk):
             vcs = [e for e in tr.events if e.kind == 'call' and e.name == 'indirect:validcb']
             for vc in vcs:
                 nval += 1
+                # a section is validated as parsed: the callback of a section option runs only once its body was read to its
+                # closing brace - the result of the nested parse was compared with its "body complete" code before the call
+                recs = [e for e in tr.events[:tr.events.index(vc)] if e.kind == 'call' and e.name == 'cfg_parse_internal']
+                if recs:
+                    rr = recs[-1].res
+                    known = any(cn[0] == 'icmp' and cn[1] in ('eq', 'ne') and rr in (cn[2], cn[3]) and sym.is_const(cn[3] if cn[2] == rr else cn[2]) and ((cn[1] == 'eq') == t)
+                                for cn, t, _ in tr.assume[:vc.seq])
+                    if not known:
+                        chk.fail('R14.3', 'validcb-before-body-verdict:state%d' % s, c.where(vc.ins), 'state %d runs the validation callback of a section before it has looked at the result of parsing the '
+                                 'section\'s body: the callback is also called for a section whose body was refused (half-read, possibly after a callback inside it has vetoed)' % s,
+                                 witness=[tr.describe()])
                 verdict = None
                 for cn, t, _ in tr.assume:
                     if cn[0] == 'icmp' and vc.res in (cn[2], cn[3]) and sym.C0 in (cn[2], cn[3]):
